@@ -195,7 +195,7 @@ def exact_system_eval(spec, xvals: dict):
     return env
 
 
-def random_loop_system(rng, size=2, name='loop', max_level=2, downstream=True, nonlinear=False):
+def random_loop_system(rng, size=2, name='loop', max_level=2, downstream=True, nonlinear=False, extra=False, log=None):
     """A feedback loop of `size` components: comp i computes u_i = c_i + sum_j A_ij * u_j (+ quadratic term if nonlinear)
     + b_i * x_i, with a contraction matrix A (row sums < 0.6); optionally a downstream component reading u_0.
     Returns (system, spec) with spec['A'], spec['b'], spec['c'] as Fractions for the exact linear solve."""
@@ -220,16 +220,27 @@ def random_loop_system(rng, size=2, name='loop', max_level=2, downstream=True, n
         coef = [float(b[i])] + [float(A[i][j]) for j in range(size) if A[i][j] != 0]
         ci = float(c[i])
 
-        def model(inputs, _ins=tuple(ins), _coef=tuple(coef), _c=ci, _o=f'u{i}', _nl=nonlinear):
+        has_extra = extra and i == 0
+        if has_extra:
+            variables['w0'] = Variable('w0', domain=(-100.0, 100.0))
+
+        def model(inputs, _ins=tuple(ins), _coef=tuple(coef), _c=ci, _o=f'u{i}', _nl=nonlinear, _ex=has_extra, _name=f'l{i}'):
             tot = _c
             for n_, k_ in zip(_ins, _coef):
                 tot = tot + k_ * np.asarray(inputs[n_], dtype=float)
             if _nl:
                 tot = tot + 0.02 * np.asarray(inputs[_ins[1]], dtype=float) ** 2
-            return {_o: tot}
-        comps.append(Component(model, [variables[n] for n in ins], [variables[f'u{i}']], name=f'l{i}', vectorized=True,
+            ret = {_o: tot}
+            if _ex:   # an output of a loop member that is not a coupling variable
+                ret['w0'] = 10.0 * np.asarray(inputs[_ins[1]], dtype=float) + 1.0
+            if log is not None:
+                log.append((_name, {n_: np.atleast_1d(np.asarray(inputs[n_], dtype=float)).copy() for n_ in _ins},
+                            {k_: np.atleast_1d(np.asarray(v_, dtype=float)).copy() for k_, v_ in ret.items()}))
+            return ret
+        outs = [variables[f'u{i}']] + ([variables['w0']] if has_extra else [])
+        comps.append(Component(model, [variables[n] for n in ins], outs, name=f'l{i}', vectorized=True,
                                data_fidelity=(max_level if nonlinear else 1,) * len(ins)))
-    spec = {'A': A, 'b': b, 'c': c, 'size': size, 'nonlinear': nonlinear}
+    spec = {'A': A, 'b': b, 'c': c, 'size': size, 'nonlinear': nonlinear, 'extra': extra}
     if downstream:
         variables['z'] = Variable('z', domain=(-50.0, 50.0))
 
